@@ -238,6 +238,9 @@ func main() {
 								e.Negotiate(bogus)
 							}
 							e.Reset()
+							if p, a := e.Accepted(); a || p != (P{}) {
+								return explore.Failf("Reset-leaves-state", "Accepted() right after Reset reports %s, %v", ps(p), a)
+							}
 							e.Parameters = c.cfg
 							got, err := e.Negotiate(offerOption(c.off))
 							f := &wsflate.Extension{Parameters: c.cfg}
@@ -732,6 +735,21 @@ func main() {
 					}
 					return nil
 				})
+			}
+			for b := 0; b < 256; b++ {
+				b := wsflate.WindowBits(b)
+				t.Do(func() string { return fmt.Sprintf("WindowBits(%d) helpers", b) }, func() *explore.Fail {
+					if b.Defined() != (b > 0) {
+						return explore.Failf("WindowBits.Defined", "%d", b)
+					}
+					if b <= 15 && b.Bytes() != 1<<uint(b) {
+						return explore.Failf("WindowBits.Bytes", "%d -> %d", b, b.Bytes())
+					}
+					return nil
+				})
+			}
+			if wsflate.MaxLZ77WindowSize != wsflate.WindowBits(15).Bytes() || string(wsflate.ExtensionNameBytes) != wsflate.ExtensionName || wsflate.ExtensionName != "permessage-deflate" {
+				t.Do(func() string { return "package constants" }, func() *explore.Fail { return explore.Failf("package-constants", "") })
 			}
 			// Reset after an error history behaves as new
 			t.Do(func() string { return "Reset after failed negotiation" }, func() *explore.Fail {
